@@ -1802,6 +1802,10 @@ func (ex *explorer) run(st *State, blk *ssa.BasicBlock, idx int, prev *ssa.Basic
 			ex.doSelect(st, in, blk, idx)
 			return
 		case *ssa.Call:
+			if isCtxErrCall(&in.Call) {
+				ex.doCtxErr(st, in, blk, idx)
+				return
+			}
 			pushed := ex.doCall(st, in, &in.Call, in, blk, idx)
 			if pushed {
 				nf := st.top()
@@ -1958,6 +1962,49 @@ func (ex *explorer) doSelect(st *State, in *ssa.Select, blk *ssa.BasicBlock, idx
 		res := &Term{Op: "selres", Aux: fmt.Sprintf("%s/%d", id, c)}
 		ns.top().env[in] = res
 		ex.emit(ns, Step{Kind: KSelect, Instr: in, Arms: arms, Chosen: c, Blocking: in.Blocking, R: res})
+		ex.run(ns, blk, idx+1, nil, false)
+	}
+}
+
+// isCtxErrCall: ctx.Err() invoked on a context.Context.
+func isCtxErrCall(c *ssa.CallCommon) bool {
+	if !c.IsInvoke() || c.Method == nil || c.Method.Name() != "Err" || len(c.Args) != 0 {
+		return false
+	}
+	nt, ok := c.Value.Type().(*types.Named)
+	return ok && nt.Obj().Pkg() != nil && nt.Obj().Pkg().Path() == "context" && nt.Obj().Name() == "Context"
+}
+
+// doCtxErr: `ctx.Err()` is a poll of the context - the same observation as `select { case <-ctx.Done(): ...; default: }`.
+// It is presented to the rules as exactly that: a non-blocking select on ctx.Done() whose Done arm was taken (the
+// call answers a non-nil error) or whose default was taken (it answers nil), so that a stage polling with
+// `if ctx.Err() != nil { return }` is judged like one polling with the select.
+func (ex *explorer) doCtxErr(st *State, in *ssa.Call, blk *ssa.BasicBlock, idx int) {
+	f := st.top()
+	site := ex.instrID(in)
+	ctxT := ex.eval(st, in.Call.Value)
+	var doneM *types.Func
+	if it, ok := in.Call.Value.Type().Underlying().(*types.Interface); ok {
+		for i := 0; i < it.NumMethods(); i++ {
+			if it.Method(i).Name() == "Done" {
+				doneM = it.Method(i)
+			}
+		}
+	}
+	doneT := &Term{Op: "call", Aux: site + f.id + "!done", Args: []*Term{{Op: "method", Aux: "Done", Meth: doneM}, ctxT}}
+	arms := []SelArm{{Send: false, Chan: doneT}}
+	for n, c := range []int{0, -1} {
+		ns := st
+		if n == 0 {
+			ns = st.Clone()
+		}
+		if c == 0 {
+			ns.top().env[in] = &Term{Op: "ctxerr", Aux: site + f.id, Typ: in.Type()}
+		} else {
+			ns.top().env[in] = &Term{Op: "const", Aux: "nil", Typ: in.Type()}
+		}
+		res := &Term{Op: "selres", Aux: fmt.Sprintf("%s/%d", site+f.id, c)}
+		ex.emit(ns, Step{Kind: KSelect, Instr: in, Arms: arms, Chosen: c, Blocking: false, R: res})
 		ex.run(ns, blk, idx+1, nil, false)
 	}
 }
